@@ -125,7 +125,7 @@ def theorems_in(module):
         m = re.match(r'\s*end\s+(\S+)', line)
         if m and ns and ns[-1] == m.group(1):
             ns.pop(); continue
-        m = re.match(r'\s*(?:@\[[^\]]*\]\s*)?(?:private\s+|protected\s+)?theorem\s+([^\s:({\[]+)', line)
+        m = re.match(r'\s*(?:@\[[^\]]*\]\s*)?(?:protected\s+)?theorem\s+([^\s:({\[]+)', line)
         if m:
             names.append('.'.join(ns + [m.group(1)]))
     return names
@@ -141,11 +141,16 @@ def axiom_audit(pid, modules, theorems):
             f.write('#print axioms %s\n' % t)
     rc, out, err = run(['lake', 'env', 'lean', path], cwd=LEAN, timeout=1800)
     res = {}
-    # output: "'name' depends on axioms: [a, b]" or "'name' does not depend on any axioms"
-    for m in re.finditer(r"'([^']+)' depends on axioms: \[([^\]]*)\]", out.replace('\n ', ' ').replace('\n', ' ')):
-        res[m.group(1)] = [a.strip() for a in m.group(2).split(',') if a.strip()]
-    for m in re.finditer(r"'([^']+)' does not depend on any axioms", out):
-        res[m.group(1)] = []
+    # output: "'name' depends on axioms: [a,\n b]" or "'name' does not depend on any axioms"
+    flat = out.replace('\n ', ' ')
+    for line in flat.split('\n'):
+        m = re.match(r"^'(.+)' depends on axioms: \[([^\]]*)\]", line)
+        if m:
+            res[m.group(1)] = [a_.strip() for a_ in m.group(2).split(',') if a_.strip()]
+            continue
+        m = re.match(r"^'(.+)' does not depend on any axioms", line)
+        if m:
+            res[m.group(1)] = []
     ok = rc == 0 and all(t in res for t in theorems) and all(set(v) <= ALLOWED_AXIOMS for v in res.values())
     try:
         os.remove(path)
